@@ -333,8 +333,9 @@ void SmodelsOutput::rule(Head_t ht, const AtomSpan& head, Weight_t bound, const 
 	POTASSCO_REQUIRE(sec_ == 0, "adding rules after symbols not supported");
 	if (empty(head)) {
 		POTASSCO_REQUIRE(false_ != 0, "empty head requires false atom");
+		SmodelsOutput::rule(ht, toSpan(&false_, 1), bound, body); // may refuse the rule
 		fHead_ = true;
-		return SmodelsOutput::rule(ht, toSpan(&false_, 1), bound, body);
+		return;
 	}
 	SmodelsRule rt = (SmodelsRule)isSmodelsRule(ht, head, bound, body);
 	POTASSCO_REQUIRE(rt != End, "unsupported rule type");
